@@ -115,6 +115,23 @@ def spline_scenarios(tier, what):
             for lanes in (1, 2):
                 for ex in (0, 1):
                     out.append("bilinear nx=%d ny=%d lanes=%d extrap=%d seed=%d" % (nx, ny, lanes, ex, (nx + ny) % 5))
+    if what == "large":
+        # shapes far beyond the exhaustive enumeration, decided at exact rational points: size-dependent fast paths,
+        # blocked loops with remainders, lane-count thresholds (more than 64 lanes, lane counts that are no multiple of 8)
+        out.append("spline n=40 bc=NotAKnot extrap=1 seed=3")
+        out.append("spline n=36 bc=Individual=Mixed:FirstDeriv:SecondDeriv extrap=1 seed=5")
+        if tier == "thorough":
+            out.append("spline n=70 lanes=2 bc=Natural extrap=0 seed=2")
+            out.append("spline n=8 lanes=77 bc=Clamped extrap=1 seed=1")
+            out.append("spline n=6 lanes=7x11 bc=NotAKnot extrap=1 seed=4")
+            out.append("spline n=5 lanes=70 bc=Natural extrap=1 seed=2 layout=f")
+            out.append("spline n=130 bc=NotAKnot extrap=1 seed=1")
+            out.append("spline n=67 lanes=3 bc=Clamped extrap=1 seed=6")
+            out.append("spline n=9 lanes=5x5x5 bc=NotAKnot extrap=1 seed=2")
+    if what == "large-linear":
+        out.append("linear n=70 lanes=2 extrap=1 seed=4")
+        out.append("linear n=6 lanes=77 extrap=1 seed=1")
+        out.append("linear n=33 lanes=7x11 extrap=0 seed=2")
     if what == "periodic":
         for n in ns + ([8] if tier == "thorough" else []):
             out.append("spline n=%d bc=Periodic extrap=1 seed=%d" % (n, n % 5))
@@ -238,9 +255,13 @@ def run(repo, cfg, pid, tier, seed, build):
                                               witness=dict(scenario=d["scenario"], detail=c["detail"], replay="echo '%s' | <runner>" % d["scenario"]), output=json.dumps(c), scenario=d["scenario"]))
         else:
             dag_recs.append(r)
+    # balance the chunks by record size (largest first, always into the lightest chunk)
     chunks = [[] for _ in range(12)]
-    for i, r in enumerate(dag_recs):
-        chunks[i % 12].append(r)
+    load = [0] * 12
+    for r in sorted(dag_recs, key=len, reverse=True):
+        ci = load.index(min(load))
+        chunks[ci].append(r)
+        load[ci] += len(r) * len(r) // 1000 + 1
     fams = ",".join(cfg.get("families", ["shape"]))
     sym_rule = cfg.get("sym", {}).get(tier, "sym<=0") if isinstance(cfg.get("sym"), dict) else cfg.get("sym", "sym<=0")
 
